@@ -7,9 +7,10 @@ import (
 )
 
 // SpecTokenInput is the authenticator input of a token:
-// token_type || nonce || context || key_id (RFC 9577 section 2.2).
+// token_type || nonce || context || key_id (RFC 9577 section 2.2). (`rec`: kept as a defined function
+// symbol instead of being unfolded at every use, so that equal inputs are recognised as such.)
 //
-//@ spec
+//@ spec rec
 func SpecTokenInput(tokenType uint16, nonce, context, keyID string) string {
 	return U16(tokenType) + nonce + context + keyID
 }
